@@ -17,6 +17,7 @@ import (
 	"strconv"
 	"strings"
 	"sync"
+	"sync/atomic"
 	"syscall"
 	"time"
 )
@@ -192,13 +193,19 @@ func WorkerMain(args []string) int {
 			only, _ = strconv.Atoi(a[5:])
 		}
 	}
+	// Bound private anonymous memory (the Go heap) so that a runaway allocation in
+	// the engine ends this worker with "out of memory" instead of the machine's
+	// OOM killer ending arbitrary processes. Shared file mappings (MMap I/O) do
+	// not count against RLIMIT_DATA.
+	lim := uint64(6 << 30)
+	syscall.Setrlimit(2 /* RLIMIT_DATA */, &syscall.Rlimit{Cur: lim, Max: lim})
 	jf, err := os.OpenFile(jpath, os.O_CREATE|os.O_WRONLY|os.O_APPEND, 0644)
 	if err != nil {
 		fmt.Fprintln(os.Stderr, "worker:", err)
 		return 2
 	}
 	defer jf.Close()
-	budget := 180 * time.Second
+	budget := 120 * time.Second
 	if b, ok := p.(CaseBudgeter); ok {
 		budget = b.CaseBudget(tier)
 	}
@@ -326,6 +333,7 @@ func EnvSeed() uint64 {
 }
 
 type shardState struct {
+	gaveUp  bool
 	shard   int
 	after   int
 	results []Result
@@ -426,6 +434,7 @@ func Drive(propID, tier string) int {
 	defer os.RemoveAll(tmp)
 
 	states := make([]*shardState, nsh)
+	var totalDeaths atomic.Int64
 	var wg sync.WaitGroup
 	for s := 0; s < nsh; s++ {
 		states[s] = &shardState{shard: s, after: -1}
@@ -451,6 +460,11 @@ func Drive(propID, tier string) int {
 				eb, _ := os.ReadFile(e)
 				st.deaths = append(st.deaths, deathInfo{index: open, hang: hang, stderr: tail(string(eb), 12000), exit: ex})
 				st.after = open
+				if totalDeaths.Add(1) >= 6 {
+					// a tree that keeps killing workers has been shown to be broken; stop exploring
+					st.gaveUp = true
+					return
+				}
 			}
 		}(states[s])
 	}
@@ -464,6 +478,7 @@ func Drive(propID, tier string) int {
 		}
 	}
 	// worker deaths: re-run the single case once in a fresh worker
+	reruns := 0
 	for _, st := range states {
 		for _, d := range st.deaths {
 			r := Result{Index: d.index, Verdict: "violated"}
@@ -474,10 +489,19 @@ func Drive(propID, tier string) int {
 				fmt.Fprintf(os.Stderr, "worker for shard %d died outside a case (%s):\n%s\n", st.shard, d.exit, d.stderr)
 				return 2
 			}
-			j := filepath.Join(tmp, fmt.Sprintf("rj.%d", d.index))
-			e := filepath.Join(tmp, fmt.Sprintf("re.%d", d.index))
-			runWorker(propID, tier, seed, 0, 1, j, e, fmt.Sprintf("only=%d", d.index))
-			res2, open2, hang2, _ := parseJournal(j)
+			// confirm reproducibility in a fresh process (first three deaths only:
+			// a tree that kills every worker does not need 16 confirmations)
+			var res2 []Result
+			open2, hang2 := d.index, d.hang
+			reproducedNote := "not-attempted"
+			if reruns < 3 {
+				reruns++
+				j := filepath.Join(tmp, fmt.Sprintf("rj.%d", d.index))
+				e := filepath.Join(tmp, fmt.Sprintf("re.%d", d.index))
+				runWorker(propID, tier, seed, 0, 1, j, e, fmt.Sprintf("only=%d", d.index))
+				res2, open2, hang2, _ = parseJournal(j)
+				reproducedNote = fmt.Sprint(open2 >= 0)
+			}
 			reproduced := open2 >= 0
 			if d.hang {
 				// watchdog expiry: inconclusive unless the property classifies the dump
@@ -488,16 +512,19 @@ func Drive(propID, tier string) int {
 				if cls == "deadlock" {
 					r.Violate("deadlock: all client goroutines blocked on engine locks",
 						map[string]string{"class": "deadlock", "reproduced": fmt.Sprint(reproduced && hang2), "sig": deadlockSig(d.stderr)}, d.stderr)
+				} else if reproduced && hang2 {
+					r.Violate("an engine call did not return: the case hit the watchdog twice, in two fresh processes",
+						map[string]string{"class": "hang-reproduced", "sig": deadlockSig(d.stderr)}, d.stderr)
 				} else {
 					r.Verdict = "inconclusive"
-					r.Note = "watchdog expired without deadlock signature"
+					r.Note = "watchdog expired once without deadlock signature (reproduction: " + reproducedNote + ")"
 					if !reproduced && len(res2) == 1 {
 						r = res2[0] // second attempt finished: use its verdict
 					}
 				}
 			} else {
 				r.Violate("process death during case", map[string]string{
-					"class": "process-death", "reproduced": fmt.Sprint(reproduced), "death": deathClass(d.stderr)}, d.stderr)
+					"class": "process-death", "reproduced": reproducedNote, "death": deathClass(d.stderr)}, d.stderr)
 			}
 			byIndex[d.index] = r
 		}
@@ -549,6 +576,12 @@ func Drive(propID, tier string) int {
 		}
 	}
 	missing := len(cases) - evals
+	gaveUp := false
+	for _, st := range states {
+		if st.gaveUp {
+			gaveUp = true
+		}
+	}
 
 	known := loadKnown()
 	knownHit := map[string]bool{}
@@ -609,8 +642,11 @@ func Drive(propID, tier string) int {
 			broken = append(broken, c)
 		}
 	}
-	if missing > 0 {
+	if missing > 0 && !gaveUp {
 		broken = append(broken, fmt.Sprintf("%d cases produced no result", missing))
+	}
+	if gaveUp {
+		fmt.Printf("NOTE: exploration stopped early after repeated worker deaths/hangs; %d cases were not run\n", missing)
 	}
 
 	// evidence
@@ -718,7 +754,7 @@ func sigOf(v Violation) string {
 
 func deathClass(stderr string) string {
 	for _, pat := range []string{"SIGBUS", "SIGSEGV", "fatal error: sync: Unlock of unlocked RWMutex", "fatal error: sync: RUnlock of unlocked RWMutex",
-		"fatal error: all goroutines are asleep", "fatal error: checkptr", "fatal error: concurrent map", "fatal error:", "panic:", "signal: killed"} {
+		"fatal error: all goroutines are asleep", "fatal error: checkptr", "fatal error: concurrent map", "fatal error: runtime: out of memory", "fatal error:", "panic:", "signal: killed"} {
 		if strings.Contains(stderr, pat) {
 			return pat
 		}
